@@ -3,6 +3,7 @@ package harness
 import (
 	"bytes"
 	"fmt"
+	"github.com/lightninglabs/lightning-node-connect/mailbox"
 	"io"
 	"math/rand"
 	"strings"
@@ -25,6 +26,7 @@ type c05Scenario struct {
 
 type c05Result struct {
 	ConnectErr string
+	HalfPaired bool // the first handshake completed on the client only: the known C11 finding, not a C05 matter
 	Tries      int
 	Got        [2][]byte // bytes read by server / by client
 	Sent       [2][]byte // bytes written by client / by server
@@ -79,6 +81,7 @@ func runC05(sc *c05Scenario) *c05Result {
 	res.Tries = tries
 	if srv.Err != nil || cli.Err != nil {
 		res.ConnectErr = fmt.Sprintf("server: %v; client: %v", srv.Err, cli.Err)
+		res.HalfPaired = st.CliData.HandshakePattern().Name == mailbox.KK && st.SrvData.HandshakePattern().Name != mailbox.KK
 		return res
 	}
 	ends := [2]SecureConn{cli, srv} // writer of direction d is ends[d], reader is ends[1-d]
@@ -177,9 +180,7 @@ func highEntropy(n, seed int) []byte {
 	return b
 }
 
-func TestC05(t *testing.T) {
-	r := NewRecorder(t, "C05")
-	defer r.Close(t)
+func c05Scenarios() []*c05Scenario {
 	rng := newRand(5)
 	var scs []*c05Scenario
 	sizes := func(k int) []int {
@@ -222,6 +223,13 @@ func TestC05(t *testing.T) {
 		scs = append(scs, &c05Scenario{Name: fmt.Sprintf("idle-%v", idle), Seed: 900 + i,
 			Writes: [2][]int{{100, 5000, 70, 40000}, {300, 17, 65535, 9}}, ReadBuf: [2]int{32768, 4096}, Idle: idle})
 	}
+	return scs
+}
+
+func TestC05(t *testing.T) {
+	r := NewRecorder(t, "C05")
+	defer r.Close(t)
+	scs := c05Scenarios()
 	var mu sync.Mutex
 	idx := 0
 	t.Run("stack", func(t *testing.T) {
@@ -245,6 +253,10 @@ func TestC05(t *testing.T) {
 					switch {
 					case p:
 						r.Violate("C05/panic", msg, sc)
+					case res.ConnectErr != "" && res.HalfPaired:
+						// one defect, one alarm: the pairing handshake lost its last message (relay fault) and the two
+						// sides are now at different rendezvous; that is C11's finding half-paired-after-lost-act3
+						r.Notes["half_paired_not_connected"] = fmt.Sprint(r.Notes["half_paired_not_connected"], " ", sc.Name)
 					case res.ConnectErr != "":
 						r.Violate("C05/no-connection", fmt.Sprintf("no secured connection after %d attempts: %s", res.Tries, res.ConnectErr), sc)
 					default:
